@@ -125,7 +125,7 @@ def _cmp_alts(ex, a, b, wrap_some):
 def call(ex, st, fr, callee, last, args, argops, dest):
     E = _E()
     IV, EnumV, Agg = E.IV, E.EnumV, E.Agg
-    c = callee
+    c = re.sub(r"^(std|core)::(option|result|cmp)::(?=Option|Result|Ordering)", "", callee)
 
     # ---- Try / FromResidual ------------------------------------------------
     if re.match(r"^<Option<.*> as (std::ops::|core::ops::)?Try>::branch$", c):
@@ -652,6 +652,19 @@ def _tls_models(ex, st, fr, c, last, args):
             return NotImplemented
         st.obs.append(("tls-access", cell))
         return E._Enter(clo, [args[1], E.RefV(box=cell)])
+    m = re.match(r"^(?:std::sync::atomic::|core::sync::atomic::)?Atomic(?:::<(\w+)>|Bool|U8|Usize|U32|I32)::(new|load|store)$", c)
+    if m:
+        _use("Atomic<T>::new/load/store on a static: one cell shared by all threads (sequentially consistent interleavings)")
+        if m.group(2) == "new":
+            return args[0]
+        if not (isinstance(args[0], E.RefV) and args[0].box is not None and args[0].box[0] == "static"):
+            return NotImplemented
+        if m.group(2) == "load":
+            st.obs.append(("shared-read", args[0].box[1]))
+            return ex.read_ref(st, args[0])
+        st.obs.append(("shared-write", args[0].box[1]))
+        ex.write_ref(st, args[0], args[1])
+        return E.UNIT
     if re.match(r"^(std::cell::)?RefCell::<.*>::new$", c):
         _use("RefCell::new (cell content)")
         return args[0]
